@@ -10,7 +10,7 @@ RULE = ("every registered builtin (names regenerated from vm/builtin/*.rs) x ari
         "expressions covering all value kinds and boundary values (quick: a sample per builtin and arity; thorough: all values at arity 1, 700 of the palette's pairs per builtin at arity 2, 40 tuples per higher arity), six calls per session in ONE vm followed by the probe (+ 1 2) "
         "= 3 (the vm still works); circular lists / self-containing vectors for list? length equal? display write and as "
         "the value of an evaluation; Unicode text and token soup through scanner, parser, evaluator, sliced evaluator "
-        "and highlighter; debug and (thorough) release builds; non-trivial = a builtin call with at least one argument "
+        "and highlighter; debug build (the profile in which arithmetic overflow panics); non-trivial = a builtin call with at least one argument "
         "of a kind the builtin does not accept, or a boundary value; distinct by case hash")
 ASSUMPTIONS = ["libm-backed builtins (sqrt exp log sin cos tan asin acos atan) and rand/time/terminal builtins are not modelled: "
                "for them only the implementation is observed (no panic, error renderable, vm usable afterwards)",
